@@ -185,3 +185,22 @@ prop("C08", shards=16, fuzz=[("FuzzC08", 180)], timeout=(1200, 7200),
                 "search (several decoders allocate what a prefix says; allocation size is not in the statement). Size-changing "
                 "plants inside the length-delimited section data of a whole chunk packet are made through PutData/Section instead. "
                 "The bot's packet dispatch table (indexed by a peer-chosen id) is outside the decoders the statement lists.")
+
+prop("C09", shards=16, level="fault_enumeration",
+     technique="differential property-based testing over enumerated fragmentation plans and exhaustively injected reader/writer faults",
+     rule="Operations: Packet.UnPack (+-compression), nbt.Decoder.Decode into any / typed struct / RawMessage / dynbt.Value / "
+          "StringifiedMessage (file and network format), every generated packet field schema of C06 (incl. FixedBitSet, Ary, Option, "
+          "Tuple, NBT fields), RCONConn.ReadPacket; writers: Packet.Pack and Conn.WritePacket, Encoder.Encode (carriers and generated "
+          "Go values through the reflection encoder), field WriteTo, RCONConn.WritePacket. Inputs are valid encodings from the "
+          "reference writers. Delivery: plans nil/1/2/3/7-byte reads + generated plans, and ALL 2^(n-1) compositions for inputs of "
+          "<= 12 bytes, each through a plain io.Reader and an io.ByteReader, with a sentinel behind the value and with the last "
+          "fragment returned together with io.EOF; oracle: same value, same reported n, exactly the value's bytes taken from the "
+          "stream, as the contiguous read. Faults: for EVERY offset k < len (inputs > 700 bytes: first 300, last 150, every 13th) "
+          "the reader ends (EOF) or fails (injected error) after k bytes, in three delivery modes; the writer accepts k bytes then "
+          "fails: the operation must return a non-nil error. Non-trivial: a delivery with >= 2 fragments of a multi-byte input, a "
+          "fault at k > 0. Distinct: hash(op, bytes, plan / fault point). evaluations counts deliveries + injected faults.",
+     level_text="Fault enumeration: every fault offset of every sampled input is injected (sampled inputs, exhaustive inner "
+                "enumeration); fragmentations are exhaustive for short inputs.",
+     level_note="Trusted: harness/iox stream shapes, the reference writers. PluginMessageData (reads to EOF by design) is exempt from "
+                "sentinel and read-fault checks. Writers that report a short write without an error violate io.Writer and are not "
+                "modelled.")
